@@ -102,7 +102,10 @@ def jax_vmap(I, f, in_axes=0, out_axes=0, **kw):
         def elem(i):
             sl = slice_spec(I, spec, tuple(args), i)
             return I.call(f, list(sl), {})
-        return Stacked(n, elem, tag="vmap")
+        st = Stacked(n, elem, tag="vmap")
+        # jax traces the mapped function once whatever the length: Python-level errors (wrong arity ...) surface here
+        st.at(I.ctx.const("ivmap_trace", Z))
+        return st
     return NativeFn("vmap(f)", mapped)
 
 
